@@ -108,7 +108,7 @@ def run(chk):
             chk.ob("R1 lookup arguments", "R1|%s|ids" % nm, ok_ids, where(co, bb), wit)
 
     # ---------------- R2
-    allb = p.nested(ga.path)
+    allb = p.nested_of(ga)
     bad = []
     for b in allb:
         for bb, t in b.calls():
@@ -229,7 +229,7 @@ def run(chk):
                             seeds.add(s["place"]["l"])
             used = False
             wit = "parameter rp_id is never read" if not seeds else ""
-            bodies = [co] + [b for b in p.nested(co.path) if b is not co]
+            bodies = [co] + [b for b in p.nested_of(co) if b is not co]
             # taint in the coroutine, then into closures through captured operands
             tainted = forward_taint(co, seeds) if seeds else set()
             cmp_sites = []
@@ -282,7 +282,7 @@ def run(chk):
                     x = x[2][0]
                 return x
             good, other = [], []
-            for b in p.nested(co.path):
+            for b in p.nested_of(co):
                 Tb = flow.Terms(p, b)
                 for bb2, t2 in b.calls():
                     cal = core.callee_of(t2)
